@@ -327,12 +327,26 @@ def fmt_int(v, mode):
     return bin(v) if v >= 0 else '-' + bin(-v)
 
 
+BASE_OFFSET = {'c.lw', 'c.sw', 'jalr', 'lb', 'lbu', 'lh', 'lhu', 'lw', 'sb', 'sh', 'sw'}
+# a trailing immediate may be written as an expression, except where the front end takes the operand as a single token
+NO_EXPR = {'beq', 'bne', 'blt', 'bge', 'bltu', 'bgeu', 'jal', 'slli', 'srli', 'srai', 'fence', 'c.j', 'c.jal', 'c.beqz', 'c.bnez',
+           'c.slli', 'c.srli', 'c.srai'}
+
+
 def render_line(m, ops, rng):
     sig = ALLSIG[m]
     parts = []
-    for s, v in zip(sig, ops):
+    for k, (s, v) in enumerate(zip(sig, ops)):
         if s in ('r', 'p'):
             parts.append(str(spell_reg(v, rng.choice([1, 2, 3, 4]))))
+        elif k == len(sig) - 1 and m not in NO_EXPR and not m.endswith('.w') and abs(v) < 2**31 and rng.random() < 0.3:
+            # the same value as an expression: parenthesised, or a sum whose first token is a small decimal
+            if m not in BASE_OFFSET and rng.random() < 0.5:
+                parts.append('(%s)' % fmt_int(v, rng.randrange(3)))
+            else:
+                a_ = rng.randrange(32)
+                b_ = v - a_
+                parts.append('%d %s %s' % (a_, '+' if b_ >= 0 else '-', fmt_int(abs(b_), rng.randrange(3))))
         else:
             parts.append(fmt_int(v, rng.randrange(3)))
     sep = rng.choice([', ', ' ', ',', ' , '])
